@@ -577,3 +577,30 @@ Section DataMain.
     intros k t ti e H. destruct k; discriminate.
   Qed.
 End DataMain.
+
+(* a boolean test of the no-overlap hypothesis, for examples *)
+Definition active_b (s : gst) (i : nat) : bool :=
+  match nth_error (s_threads (x_sys (g_x s))) i, nth_error (x_info (g_x s)) i, nth_error (g_ents s) i with
+  | Some t, Some ti, Some e => fetching ti && active_at e t
+  | _, _, _ => false
+  end.
+
+Definition no_overlap_b (s : gst) : bool :=
+  length (filter (active_b s) (seq 0 (length (s_threads (x_sys (g_x s)))))) <=? 1.
+
+Lemma two_members {A} (l : list A) x y : In x l -> In y l -> x <> y -> 2 <= length l.
+Proof.
+  destruct l as [|a [|b l]]; cbn; intros Hx Hy Hne; try lia; try tauto.
+  destruct Hx as [<-|[]], Hy as [<-|[]]. congruence.
+Qed.
+
+Lemma no_overlap_b_sound s : no_overlap_b s = true -> no_overlap s.
+Proof.
+  unfold no_overlap_b, no_overlap. intros H i j Hi Hj.
+  destruct (Nat.eq_dec i j) as [|Hne]; [assumption|]. exfalso.
+  assert (Hin : forall k, active s k -> In k (filter (active_b s) (seq 0 (length (s_threads (x_sys (g_x s))))))).
+  { intros k (t & ti & e & H1 & H2 & H3 & H4 & H5). apply filter_In. split.
+    - apply in_seq. split; [lia|]. cbn. apply nth_error_Some. congruence.
+    - unfold active_b. rewrite H1, H2, H3, H4, H5. reflexivity. }
+  pose proof (two_members _ i j (Hin i Hi) (Hin j Hj) Hne) as H2. apply Nat.leb_le in H. lia.
+Qed.
